@@ -3,9 +3,13 @@
    snapshot of the real database, and monitors the environment assumptions (wf_trace). *)
 From Continuum Require Import Model.Base Model.VTable Model.Backfill Model.Core Proofs.CoreChainP.
 
+(* one activity row: id, transaction_id, (object class, object id, object_tx_id), same for target *)
+Record act := mkact { ac_id : Z; ac_tx : option Z;
+                      ac_obj : option (nat * Z * option Z); ac_tgt : option (nat * Z * option Z) }.
+
 Record snap := mksnap {
   sn_live : list lrow; sn_vt : vtable; sn_av : list arow; sn_alive : list (Z * list Z);
-  sn_tx : list Z; sn_chg : list (Z * nat); sn_uows : nat }.
+  sn_tx : list Z; sn_chg : list (Z * nat); sn_uows : nat; sn_acts : list act }.
 
 Record core_case := mkcase {
   cc_cfg : cfg; cc_evs : list ev; cc_snaps : list snap; cc_exc : bool;
